@@ -46,10 +46,29 @@ def validate_chunks(ctx, module, tag, traces, chunk=2000, extra_data=None, max_p
         for r in tr:
             k = str(r.get('ev')) + ((':' + str(r.get('kind'))) if r.get('kind') is not None and isinstance(r.get('kind'), str) else '')
             hist[k] = hist.get(k, 0) + 1
+    # observer code raised inside the library (a private helper changed its signature, ...): what it recorded is unreliable, the
+    # trace is validated on its result clauses only
+    broken = {i for i, tr in enumerate(traces) if any(r.get('ev') == 'hook_error' for r in tr)}
+    if broken:
+        traces = list(traces)
+        for i in broken:
+            t = [r for r in traces[i] if r.get('ev') != 'hook_error']
+            traces[i] = relax(t) if relax else t
+            ctx.deviation('spec: observation hooks raised inside the harness (internal call signatures differ from the specification): '
+                          + 'results-only validation')
     ed = dict(extra_data or {})
     ed.setdefault('pid', ctx.pid)      # a trace spec shared by several properties evaluates the clauses of the others as strict-only
-    bad = _run_chunks(ctx, module, tag, traces, chunk, dict(ed, strict=True), max_procs, timeout, kw)
-    adv = {i: why for i, why in bad.items() if is_advisory(why)}
+    strict_idx = [i for i in range(len(traces)) if i not in broken]
+    bad = {}
+    if strict_idx:
+        b1 = _run_chunks(ctx, module, tag, [traces[i] for i in strict_idx], chunk, dict(ed, strict=True), max_procs, timeout, kw)
+        bad = {strict_idx[j]: why for j, why in b1.items()}
+    if broken:
+        bidx = sorted(broken)
+        b0 = _run_chunks(ctx, module, tag + 'h', [traces[i] for i in bidx], chunk, dict(ed, strict=False), max_procs, timeout, kw)
+        for j, why in b0.items():
+            bad[bidx[j]] = why
+    adv = {i: why for i, why in bad.items() if is_advisory(why) and i not in broken}
     if adv:
         idxs = sorted(adv)
         relaxed = [(relax(traces[i]) if relax else traces[i]) for i in idxs]
